@@ -12,6 +12,8 @@ CONSTANTS
   CfiLayouts = {"none"}
   Isa = "x64"
   WithScopes = FALSE
+  Leads = {0}
+  DropFnTables = {FALSE}
   ExtraData = {FALSE}
   Retargets = {FALSE}
   AlignOpts = {0}
